@@ -855,7 +855,26 @@ func C16(c *ev.Ctx) {
 				}
 			}
 			if repro == 3 {
+				// the key names the scenario AND the way it fails (a late return is the plain key)
 				key := "waittimeout." + sc.Name
+				for _, e := range last {
+					if e["ev"] == "return" {
+						asInt := func(v any) int {
+							switch x := v.(type) {
+							case int:
+								return x
+							case float64:
+								return int(x)
+							}
+							return -1
+						}
+						if asInt(e["hung"]) == 1 {
+							key += ".never-returned"
+						} else if asInt(e["held"]) == 0 {
+							key += ".lock-not-held"
+						}
+					}
+				}
 				c.Report(key, fmt.Sprintf("machine.WaitTimeout scenario %s (timeout %d ms, %s at %d ms, prelude %q): the run is rejected by WaitTimeoutTrace (lock not held at return, or return later than the deadline) in 3 of 3 runs\n%s",
 					sc.Name, sc.TimeoutMs, sc.Kind, sc.SigAtMs, sc.Prelude, ndjsonString(last)), map[string]string{"trace.ndjson": ndjsonString(last)})
 			} else {
